@@ -33,6 +33,10 @@ var HandCorpus = []string{
 	"{{ a b-and b b-or c b-xor d }}",
 	"{{ a is defined and b is not divisible by(3) }}",
 	"{{ a ? b : c ? d : e }}",
+	// whatever stands where the second word, the name or the arguments of a test are expected
+	"{{ a is same none }}{{ a is not same null }}{{ a is divisible true }}{{ a is odd false }}{{ a is same None }}{{ a is TRUE }}{{ a is null }}{{ a is not none }}",
+	"{{ a is same 1 }}{{ a is same 'x' }}{{ a is same (1) }}{{ a is same [1] }}{{ a is same {} }}{{ a is 1 }}{{ a is 'x' }}{{ a is (b) }}{{ a is not (b) }}{{ a is -1 }}{{ a is not not b }}",
+	"{{ a is same as(b) }}{{ a is same as b }}{{ a is divisible by 3 }}{{ a is divisible by(3) is odd }}{{ a is even odd prime }}{{ a is b.c }}{{ a is b|c }}{{ a is b[0] }}{{ a is b() () }}",
 	"{{ -a + +b - -1 }}",
 	"{{ a.b.c['d'][0].e(1, 'x').f }}",
 	"{{ a|default('x')|upper|slice(1, 2) }}",
@@ -44,6 +48,8 @@ var HandCorpus = []string{
 	"{{ (1 + 2) * (3 - (4 / 5)) }}",
 	"{{ 1.5 + 0.25 }}{{ 10..1 }}{{ 'a'..'e' }}",
 	"{{ null }}{{ true }}{{ false }}{{ none }}",
+	// sources that are also names (through the string loader a template's source is its name)
+	"twig", ".twig", "twig.twig", "a.twig", "js", "txt", ".js", ".", "..", "x.", ".txt.twig", "a/b.css", "html_attr", "t.url.twig",
 	// text hostility
 	"plain text with } and %} and #} and { and % and # inside",
 	"multi\nline\r\ntext {{ a\n+\nb }} and {% if\n x \n%}y{% endif %}",
